@@ -82,3 +82,35 @@ text("c09-mpm-returns-unverified", "C09", V3, "        return msg.scoped_pdu.dat
 text("c09-verify-only-if-priv", "C09", USM, "        verify_authentication(message, credentials, security_params)\n", "        if credentials.priv is not None:\n            verify_authentication(message, credentials, security_params)\n")
 text("c09-s-compare-digest", "C09", HASHBASE, "        return received_digest == expected_digest\n", "        return hmac.compare_digest(received_digest, expected_digest)\n", expect="silent")
 text("c09-s-direct-test", "C09", USM, "    is_authentic = auth_method.authenticate_incoming_message(\n        credentials.auth.key,\n        bytes(without_digest),\n        security_params.auth_params,\n        security_params.authoritative_engine_id,\n    )\n    if not is_authentic:", "    if not auth_method.authenticate_incoming_message(\n        credentials.auth.key,\n        bytes(without_digest),\n        security_params.auth_params,\n        security_params.authoritative_engine_id,\n    ):", expect="silent")
+
+# ---------------------------------------------------------------- C13
+TPT = "puresnmp/transport.py"
+patch("rev-D12-socket-leak", "C13", "0faccb0-fix__UDP_socket_is_released_when_the_OS_reports_an_error_for.diff")
+text("c13-no-close-on-reply", "C13", TPT, "        self.future.set_result(data)\n        if self.transport:\n            self.transport.close()\n", "        self.future.set_result(data)\n")
+text("c13-no-abort-on-timeout", "C13", TPT, "        except (asyncio.TimeoutError, socket.timeout) as exc:\n            if self.transport:\n                self.transport.abort()\n", "        except (asyncio.TimeoutError, socket.timeout) as exc:\n")
+text("c13-no-decrement", "C13", TPT, "            retries -= 1\n", "")
+text("c13-eq-zero", "C13", TPT, "            if retries == 1:\n                raise", "            if retries == 0:\n                raise")
+text("c13-s-ge-zero-loop", "C13", TPT, "    while retries > 0:", "    while retries >= 0:", expect="silent", note="equivalent for retries >= 1: the handler raises when the counter is 1")
+text("c13-timeout-doubled", "C13", TPT, "response = await protocol.get_data(timeout)", "response = await protocol.get_data(timeout * 2)")
+text("c13-packet-altered", "C13", TPT, "            lambda: SNMPClientProtocol(packet),", "            lambda: SNMPClientProtocol(packet[:1400]),")
+text("c13-reply-stripped", "C13", TPT, "        self.future.set_result(data)\n", "        self.future.set_result(data.rstrip(b\"\\x00\"))\n")
+text("c13-wait-for-const", "C13", TPT, "return await asyncio.wait_for(self.future, timeout)", "return await asyncio.wait_for(self.future, 1)")
+text("c13-swallow-timeout-last", "C13", TPT, "            if retries == 1:\n                raise\n", "            if retries == 1:\n                return b\"\"\n")
+text("c13-wrong-exception", "C13", TPT, "            raise Timeout(\n                f\"{timeout} second timeout exceeded on UDP transport.\"\n            ) from exc", "            raise OSError(\n                f\"{timeout} second timeout exceeded on UDP transport.\"\n            ) from exc")
+text("c13-s-finally", "C13", TPT, "        except Exception:\n            # Errors reported by the OS (f.ex. ICMP port unreachable) end up\n            # here. Don't leave the socket open\n            if self.transport:\n                self.transport.abort()\n            raise\n", "        except BaseException:\n            if self.transport is not None:\n                self.transport.abort()\n            raise\n", expect="silent")
+text("c13-s-close-in-error-received", "C13", TPT, "        self.future.set_exception(exc)\n\n    async def get_data", "        self.future.set_exception(exc)\n        if self.transport:\n            self.transport.close()\n\n    async def get_data", expect="silent")
+
+# ---------------------------------------------------------------- C18
+text("c18-mpm-not-restored", "C18", RAW, "            self.config = old_config\n            self.mpm = old_mpm\n", "            self.config = old_config\n")
+text("c18-no-finally", "C18", RAW, "        try:\n            self.configure(**kwargs)\n            yield\n        finally:\n            self.config = old_config\n            self.mpm = old_mpm\n", "        self.configure(**kwargs)\n        yield\n        self.config = old_config\n        self.mpm = old_mpm\n")
+text("c18-restore-swapped", "C18", RAW, "            self.config = old_config\n            self.mpm = old_mpm\n", "            self.config = self.config\n            self.mpm = old_mpm\n")
+text("c18-save-after-configure", "C18", RAW, "        old_config = self.config\n        old_mpm = self.mpm\n        try:\n            self.configure(**kwargs)\n", "        self.configure(**kwargs)\n        old_config = self.config\n        old_mpm = self.mpm\n        try:\n")
+text("c18-store-before-validate", "C18", RAW, "        new_config = replace(self.config, **kwargs)\n        if \"credentials\" in kwargs and type(self.config.credentials) != type(\n            kwargs[\"credentials\"]\n        ):\n            # New credentials may switch from one SNMP version to another\n            # so we need to create a new message-processing-model\n            lcd: Dict[str, Any] = {}\n            self.mpm = mpm.create(\n                kwargs[\"credentials\"].mpm, self.transport_handler, lcd\n            )\n        self.config = new_config\n", "        if \"credentials\" in kwargs and type(self.config.credentials) != type(\n            kwargs[\"credentials\"]\n        ):\n            lcd: Dict[str, Any] = {}\n            self.mpm = mpm.create(\n                kwargs[\"credentials\"].mpm, self.transport_handler, lcd\n            )\n        new_config = replace(self.config, **kwargs)\n        self.config = new_config\n")
+text("c18-timeout-captured", "C18", RAW, "        self.sender = sender\n        self.transport_handler = handler\n", "        self.sender = sender\n        self._timeout = self.config.timeout\n        self.transport_handler = handler\n", expect="silent", note="adds an unused attribute only")
+text("c18-send-const-timeout", "C18", RAW, "            bytes(packet),\n            timeout=self.config.timeout,\n            retries=self.config.retries,\n        )\n        response = self.mpm.decode", "            bytes(packet),\n            timeout=DEFAULT_TIMEOUT,\n            retries=self.config.retries,\n        )\n        response = self.mpm.decode")
+multi("c18-handler-captured-retries", "C18", [(RAW, "        endpoint = Endpoint(address, port)\n\n        async def handler", "        endpoint = Endpoint(address, port)\n        retries = self.config.retries\n\n        async def handler"), (RAW, "                timeout=self.config.timeout,\n                retries=self.config.retries,\n            )\n\n        self.sender = sender", "                timeout=self.config.timeout,\n                retries=retries,\n            )\n\n        self.sender = sender")])
+text("c18-old-creds-mpm", "C18", RAW, "            self.mpm = mpm.create(\n                kwargs[\"credentials\"].mpm, self.transport_handler, lcd\n            )", "            self.mpm = mpm.create(\n                self.config.credentials.mpm, self.transport_handler, lcd\n            )")
+text("c18-no-family-switch", "C18", RAW, "        if \"credentials\" in kwargs and type(self.config.credentials) != type(\n            kwargs[\"credentials\"]\n        ):", "        if \"credentials\" in kwargs and type(self.config.credentials) == type(\n            kwargs[\"credentials\"]\n        ):")
+text("c18-v2c-mpm-id", "C18", "puresnmp/credentials.py", "        super().__init__(community)\n        self.mpm = 1", "        super().__init__(community)\n        self.mpm = 2")
+text("c18-decode-stale-creds", "C18", RAW, "        response = self.mpm.decode(raw_response, self.credentials)", "        response = self.mpm.decode(raw_response, pdu_credentials)")
+text("c18-s-rename-saved", "C18", RAW, "        old_config = self.config\n        old_mpm = self.mpm\n        try:\n            self.configure(**kwargs)\n            yield\n        finally:\n            self.config = old_config\n            self.mpm = old_mpm\n", "        previous_mpm = self.mpm\n        previous = self.config\n        try:\n            self.configure(**kwargs)\n            yield\n        finally:\n            self.mpm = previous_mpm\n            self.config = previous\n", expect="silent")
